@@ -117,6 +117,82 @@ def corrSpearman (eps : α) (o s : List α) : Option α :=
 
 end transc
 
+
+/-! ### the ensemble statistic and the whole `corr` pipeline (glue around the correlation) -/
+
+section ens
+variable {α : Type} [Add α] [Sub α] [Mul α] [Div α] [Neg α] [LT α] [DecidableLT α]
+  [OfNat α 0] [OfNat α 1] [NatCast α]
+
+/-- members of a row that are not NaN (`np.nanmean` / `np.nanmedian` skip NaN; `none` = NaN) -/
+def present (row : List (Option α)) : List α := row.filterMap id
+
+def insertLE (x : α) : List α → List α
+  | [] => [x]
+  | y :: ys => if x < y then x :: y :: ys else y :: insertLE x ys
+
+def sortL (l : List α) : List α := l.foldr insertLE []
+
+/-- median of a non-empty list: middle value, or the mean of the two middle values -/
+def median (l : List α) : Option α :=
+  let p := sortL l
+  let n := p.length
+  if n % 2 = 1 then p[n / 2]?
+  else match p[n / 2 - 1]?, p[n / 2]? with
+    | some a, some b => some ((a + b) / (1 + 1))
+    | _, _ => none
+
+inductive Stat | mean | median
+  deriving DecidableEq, Repr
+
+/-- `np.nanmean(row)` / `np.nanmedian(row)`; a row without any value gives NaN -/
+def ensStat (st : Stat) (row : List (Option α)) : Option α :=
+  let p := present row
+  if p.isEmpty then none else
+  match st with
+  | .mean => some (mean p)
+  | .median => median p
+
+/-- `__check_ensemble_data`: forecasts whose observation is NaN or whose members are all NaN are dropped -/
+def checkEns (obs : List (Option α)) (ens : List (List (Option α))) : List (Option α × List (Option α)) :=
+  (obs.zip ens).filter fun p => p.1.isSome && !(present p.2).isEmpty
+
+def allSomeL : List (Option α) → Option (List α)
+  | [] => some []
+  | none :: _ => none
+  | some a :: t => (allSomeL t).map (a :: ·)
+
+end ens
+
+section corrfull
+variable {α : Type} [Add α] [Sub α] [Mul α] [Div α] [Neg α] [LT α] [DecidableLT α]
+  [OfNat α 0] [OfNat α 1] [NatCast α] [Transc α]
+
+inductive CorrResult (α : Type) | value (v : α) | nan | noValidData
+  deriving Repr
+
+/-- `corr(obs, ens, trans, excludenull, stat, type)` from the transformed data on (`tobs`, `tens` with `none` = NaN;
+`fin` = `np.isfinite`): statistic per forecast, optional null filter, standard-deviation guard, coefficient.
+Without `excludenull` a NaN anywhere makes the result NaN. -/
+def corrFull (fin : α → Bool) (eps : α) (spearman : Bool) (st : Stat) (excl : Bool)
+    (tobs : List (Option α)) (tens : List (List (Option α))) : CorrResult α :=
+  let tsim := tens.map (ensStat st)
+  let fo (x : Option α) : Option α := x.bind fun v => if fin v then some v else none
+  let pair : Option (List α × List α) :=
+    if excl then some (nonull (tobs.map fo) (tsim.map fo))
+    else match allSomeL tobs, allSomeL tsim with
+      | some o, some s => some (o, s)
+      | _, _ => none
+  match pair with
+  | none => .nan
+  | some (o, s) =>
+    if excl && o.isEmpty then .noValidData else
+    match (if spearman then corrSpearman eps o s else corrPearson eps o s) with
+    | some v => .value v
+    | none => .nan
+
+end corrfull
+
 /-! ### confusion matrix -/
 
 /-- `pd.crosstab(obs, sim)`: the sorted labels present in each series and the pair counts -/
